@@ -19,8 +19,9 @@ search terms of `q`.  This script runs the REAL code on a small multi-batch, mul
 SQL outside the minisql subset is rewritten, by text, in two semantics-preserving ways only (rewrite_sql): a non-recursive
 `WITH name AS (body) SELECT ... FROM name` is inlined as the derived table `FROM (body) AS name`; the optimiser hint
 `SELECT STRAIGHT_JOIN` is dropped; `(A, B) IN (SELECT c1, c2 FROM t WHERE w)` becomes `EXISTS (SELECT 1 FROM t WHERE t.c1 = A AND
-t.c2 = B AND (w))` (same truth value for non-NULL keys); `x INNER JOIN y USING (c)` becomes `ON x.c = y.c`; JSON_EXTRACT(doc, '$[0]') is supplied
-as a Python function.  The boolean structure
+t.c2 = B AND (w))` (same truth value for non-NULL keys); `x INNER JOIN y USING (c)` becomes `ON x.c = y.c`; JSON_EXTRACT(doc, '$[0]'), JSON_QUOTE,
+JSON_CONTAINS(array, scalar) and the aggregate JSON_ARRAYAGG are supplied as Python functions; a datetime.datetime parameter at
+midnight (the parsed start / end of GET /billing) is passed as the datetime.date of that day (compared with a DATE column).  The boolean structure
 of the WHERE clause (brackets, AND, OR, NOT) is executed exactly as emitted; anything else minisql cannot run fails closed.
 """
 import asyncio
@@ -170,15 +171,66 @@ def _x_func(self, node, scope):
             doc = json.loads(v)
             return doc[0] if isinstance(doc, list) and doc else None
         return _ME.CE(fn, a.refs, a.agg, volatile=a.volatile)
+    if node.name == 'JSON_QUOTE' and len(node.args) == 1:
+        a = self.expr(node.args[0], scope)
+        f = a.fn
+        return _ME.CE(lambda env: None if f(env) is None else json.dumps(str(f(env))), a.refs, a.agg, volatile=a.volatile)
+    if node.name == 'JSON_CONTAINS' and len(node.args) == 2:
+        # JSON_CONTAINS(array document, scalar candidate document): the candidate is an element of the array (the only form used)
+        a, c = self.expr(node.args[0], scope), self.expr(node.args[1], scope)
+        fa, fc = a.fn, c.fn
+
+        def fn2(env):
+            d, x = fa(env), fc(env)
+            if d is None or x is None:
+                return None
+            d, x = json.loads(d), json.loads(x)
+            if not isinstance(d, list) or isinstance(x, (list, dict)):
+                raise Unsupported('JSON_CONTAINS on something else than (array, scalar)')
+            return 1 if x in d else 0
+        return _ME.CE(fn2, a.refs | c.refs, a.agg or c.agg, volatile=a.volatile or c.volatile)
     return _orig_x_func(self, node, scope)
 
 
 _ME.Compiler.x_Func = _x_func
 
+_orig_aggregate = _ME.Compiler._aggregate
+
+
+def _aggregate(self, node, scope):
+    if node.name == 'JSON_ARRAYAGG' and len(node.args) == 1 and not node.distinct:
+        if getattr(scope, 'no_agg', False):
+            raise Unsupported('aggregate JSON_ARRAYAGG in a context without grouping')
+        scope.has_agg = True
+        a = self.expr(node.args[0], scope)
+        if a.agg:
+            raise Unsupported('nested aggregates')
+        f = a.fn
+
+        def fn(env):
+            saved = env.rows
+            out = None
+            for combo in env.group:
+                env.rows = combo
+                out = (out or []) + [f(env)]
+            env.rows = saved
+            return None if out is None else json.dumps(out)
+        return _ME.CE(fn, a.refs, agg=True)
+    return _orig_aggregate(self, node, scope)
+
+
+_ME.Compiler._aggregate = _aggregate
+
 # ---------------------------------------------------------------------------------------------------------------- the world
 
-USERS = ['alice', 'bob', 'carol']
-BILLING = {'pa': ['alice'], 'pb': ['bob'], 'pab': ['alice', 'bob'], 'pc': ['carol']}
+USERS = ['alice', 'bob', 'carol', 'dave', 'dev', 'auth']      # dave: member of nothing; dev: developer; auth: the auth service account
+DEVELOPERS = {'dev'}
+BILLING = {'pa': ['alice'], 'pb': ['bob'], 'pab': ['alice', 'bob'], 'pc': ['carol'], 'pclosed': ['bob'], 'pdel': ['alice']}
+BP_STATUS = {'pclosed': 'closed', 'pdel': 'deleted'}
+# spend rows (billing project, user); one row per date of SPEND_DATES in the by-date table
+SPEND = [('pa', 'alice'), ('pb', 'bob'), ('pab', 'alice'), ('pab', 'bob'), ('pc', 'carol'), ('pclosed', 'bob'), ('pdel', 'alice')]
+TODAY = datetime.date.today()
+SPEND_DATES = [datetime.date(2024, 3, 10), datetime.date(2024, 4, 10), TODAY.replace(day=1), TODAY]
 STATES = ['Pending', 'Ready', 'Creating', 'Running', 'Cancelled', 'Error', 'Failed', 'Success']
 # job groups of every batch: id -> parent (0 = root)
 GROUPS = {1: 0, 2: 1, 3: 0}
@@ -221,7 +273,8 @@ class World:
               "max_new_instances_per_autoscaler_loop, autoscaler_loop_period_secs, worker_max_idle_time_secs) "
               "VALUES (%s, %s, 10, 100, 100, 'gcp', 10, 10, 10)", (name, is_pool))
         for bp, users in BILLING.items():
-            x("INSERT INTO billing_projects (name, name_cs) VALUES (%s, %s)", (bp, bp))
+            x("INSERT INTO billing_projects (name, name_cs, status, `limit`) VALUES (%s, %s, %s, %s)",
+              (bp, bp, BP_STATUS.get(bp, 'open'), 100.0 if bp == 'pab' else None))
             for u in users:
                 x("INSERT INTO billing_project_users (billing_project, user, user_cs) VALUES (%s, %s, %s)", (bp, u, u))
         for b, (owner, bp, state, deleted, open_update) in BATCHES.items():
@@ -267,6 +320,12 @@ class World:
                 for k in range(4):
                     jid += 1
                     self._job(x, b, jid, 2, STATES[(2 * k + 1) % 8], 4 if k % 2 else 0, False)
+        for k, (bp, u) in enumerate(SPEND):
+            x("INSERT INTO aggregated_billing_project_user_resources_v3 (billing_project, `user`, resource_id, token, `usage`) "
+              "VALUES (%s, %s, 1, 0, %s)", (bp, u, 1000 * (k + 1)))
+            for d in sorted(set(SPEND_DATES)):
+                x("INSERT INTO aggregated_billing_project_user_resources_by_date_v3 (billing_date, billing_project, `user`, resource_id, "
+                  "token, `usage`) VALUES (%s, %s, %s, 1, 0, %s)", (d, bp, u, 100 * (k + 1)))
         x("INSERT INTO job_groups_cancelled (id, job_group_id) VALUES (3, 1)")
         x("INSERT INTO job_groups_cancelled (id, job_group_id) VALUES (5, 0)")
         self.engine.fk_checks = True
@@ -298,6 +357,11 @@ class World:
     def member(self, user, b):
         return b in BATCHES and user in BILLING[BATCHES[b][1]]
 
+    @staticmethod
+    def privileged(user):
+        """developers and the auth service may read every billing project"""
+        return user in DEVELOPERS or user == 'auth'
+
     def group_in_scope(self, b, g, scope_group, recursive):
         if g == scope_group:
             return True
@@ -324,6 +388,10 @@ _orig_run = fakedb.FakeCursor._run
 def _run(self, sql, args):
     try:
         new = rewrite_sql(sql)
+        if isinstance(args, (list, tuple)) and any(isinstance(a, datetime.datetime) for a in args):
+            if any(isinstance(a, datetime.datetime) and (a.hour, a.minute, a.second, a.microsecond) != (0, 0, 0, 0) for a in args):
+                raise Unsupported('datetime parameter that is not a midnight')
+            args = [a.date() if isinstance(a, datetime.datetime) else a for a in args]
         r = _orig_run(self, new, args)
     except Unsupported as e:
         Tap.unsupported = str(e)[:300]      # some handlers swallow every Exception: remember it
@@ -337,7 +405,7 @@ fakedb.FakeCursor._run = _run
 
 for u in USERS:
     R.AUTH_CLIENT.sessions['sid-' + u] = {'id': 7, 'state': 'active', 'username': u, 'login_id': 'l', 'namespace_name': 'ns',
-                                         'is_developer': 0, 'is_service_account': 0, 'hail_credentials_secret_name': 'creds',
+                                         'is_developer': 1 if u in DEVELOPERS else 0, 'is_service_account': 0, 'hail_credentials_secret_name': 'creds',
                                          'tokens_secret_name': 'tokens'}
 
 
@@ -385,7 +453,14 @@ LIST_ROUTES = {
     '/api/v2alpha/batches': ('batches', 2),
     '/batches': ('batches-ui', 2),
     '/api/v1alpha/batches/completed': ('batches-completed', None),
+    # billing read paths
+    '/billing': ('billing-ui', None),
+    '/billing_limits': ('bp-ui-limits', None),
+    '/billing_projects': ('bp-ui-dev', None),
+    '/api/v1alpha/billing_projects': ('bp-api', None),
+    '/api/v1alpha/billing_projects/{billing_project}': ('bp-api-one', None),
 }
+BILLING_KINDS = {'billing-ui', 'bp-ui-limits', 'bp-ui-dev', 'bp-api', 'bp-api-one'}
 
 
 def _rows_violations(world, user, url_batch, tap):
@@ -477,6 +552,85 @@ def entry_violations(world, kind, user, match, query, body):
     return bad
 
 
+def billing_check(world, kind, user, match, out, tap):
+    """Billing read paths.  A caller who is neither a developer nor the auth service may only be shown (a) spend rows of his
+    own user, (b) billing projects whose member list contains him; the developers-only page refuses him.
+    -> (allowed, n entries, bad rows, bad entries, wrongly served)"""
+    priv = world.privileged(user)
+    bad_rows, bad_entries = [], []
+    if not priv:
+        for sql, args, rows in tap:
+            for row in rows:
+                if not isinstance(row, dict) or 'billing_project' not in row:
+                    continue
+                if 'users' in row:
+                    users = row['users'] if isinstance(row['users'], list) else json.loads(row['users'] or '[]')
+                    if user not in users or user not in BILLING.get(row['billing_project'], []):
+                        bad_rows.append({'why': 'billing project the caller is not a member of', 'billing_project': row['billing_project'],
+                                         'users': users, 'sql_head': ' '.join(sql.split())[:80]})
+                elif 'user' in row and 'cost' in row:
+                    if row['user'] != user:
+                        bad_rows.append({'why': 'spend row of another user', 'billing_project': row['billing_project'], 'user': row['user'],
+                                         'cost': row['cost'], 'sql_head': ' '.join(sql.split())[:80]})
+    body = out['body']
+    n = 0
+    served = out['status'] == 200
+    if served and body is not None:
+        if kind == 'billing-ui':
+            ents = body['billing_by_project_user']
+            n = len(ents)
+            if not priv:
+                for e in ents:
+                    if e['user'] != user:
+                        bad_entries.append({'why': 'spend of another user on the page', **e})
+                for e in body['billing_by_user']:
+                    if e['user'] != user:
+                        bad_entries.append({'why': 'spend of another user on the page', **e})
+                for e in body['billing_by_project']:
+                    if user not in BILLING.get(e['billing_project'], []):
+                        bad_entries.append({'why': 'spend of a billing project the caller is not a member of on the page', **e})
+        else:
+            if kind == 'bp-ui-limits':
+                ents = body['open_billing_projects'] + body['closed_billing_projects']
+            elif kind == 'bp-ui-dev':
+                ents = body['billing_projects'] + body['closed_projects']
+            elif kind == 'bp-api-one':
+                ents = [body]
+            else:
+                ents = body
+            n = len(ents)
+            if not priv:
+                for e in ents:
+                    if user not in BILLING.get(e['billing_project'], []):
+                        bad_entries.append({'why': 'billing project the caller is not a member of in the response',
+                                            'billing_project': e['billing_project'], 'users': e.get('users')})
+    allowed = True
+    if kind == 'bp-ui-dev':
+        allowed = user in DEVELOPERS
+    elif kind == 'bp-api-one':
+        allowed = priv or user in BILLING.get(match.get('billing_project'), [])
+    leak = served and not allowed
+    # the statements on the billing tables, for the tie: bracket / keyword structure and the argument bound to every atom
+    stmts = []
+    for sql, args, rows in tap:
+        if 'billing_projects' not in sql or 'billing_project_users.`user_cs` = %s' in sql:
+            continue
+        try:
+            items = where_items(sql)
+        except Exception as e:  # noqa
+            stmts.append({'error': str(e)[:200]})
+            continue
+        bound, k = [], 0
+        al = list(args or [])
+        for it in items:
+            if isinstance(it, list) and it[0] == 'A':
+                m = it[1].count('%s')
+                bound.append([it[1], [str(a) for a in al[k:k + m]]])
+                k += m
+        stmts.append({'items': items, 'bound': bound, 'n_args': len(al), 'n_placeholders': sql.count('%s')})
+    return allowed, n, bad_rows, bad_entries, leak, stmts
+
+
 async def mode_run(req):
     world = World()
     R.real_app()
@@ -505,6 +659,12 @@ async def mode_run(req):
             import traceback
             results.append({'case': c, 'status': 'crash:' + type(e).__name__, 'detail': traceback.format_exc()[-700:], 'n': 0, 'bad_rows': [], 'bad_entries': []})
             continue
+        if kind in BILLING_KINDS:
+            allowed, n, bad_rows, bad_entries, leak, stmts = billing_check(world, kind, user, match, out, tap)
+            results.append({'case': c, 'handler': name, 'kind': kind, 'status': out['status'], 'allowed': allowed, 'n': n,
+                            'bad_rows': bad_rows[:6], 'bad_entries': bad_entries[:6], 'refused_wrongly_served': leak, 'stmts': stmts,
+                            'privileged': world.privileged(user)})
+            continue
         ub = match.get('batch_id')
         allowed = ub is None or world.member(user, ub)
         bad_rows = _rows_violations(world, user, ub, tap)
@@ -517,7 +677,8 @@ async def mode_run(req):
         results.append({'case': c, 'handler': name, 'kind': kind, 'status': out['status'], 'allowed': allowed, 'n': n,
                         'bad_rows': bad_rows[:6], 'bad_entries': bad_entries[:6], 'refused_wrongly_served': leak})
     return {'results': results, 'missing_routes': missing,
-            'world': {'billing': BILLING, 'batches': {str(k): list(v) for k, v in BATCHES.items()}, 'groups': GROUPS}}
+            'world': {'billing': BILLING, 'billing_project_status': BP_STATUS, 'developers': sorted(DEVELOPERS), 'spend': SPEND,
+                      'spend_dates': [str(d) for d in sorted(set(SPEND_DATES))], 'batches': {str(k): list(v) for k, v in BATCHES.items()}, 'groups': GROUPS}}
 
 
 # ---------------------------------------------------------------------------------------------------------------- where structure
